@@ -100,7 +100,7 @@ def run(ctx):
         for nc in (0, 1):
             for nk in (0, 1):
                 for nsen in (0, 1, 3):
-                    max_dt = 0.1 if (i % 2 == 0) else 0.05
+                    max_dt = [0.1, 0.05, 0.0123456789, 1.0 / 3.0, 2.5e-6][i % 5]
                     d = gen.gen_definition(ctx.rng, n_state=2, n_control=nc, n_calib=nk, n_sensors=nsen, depth=1, max_readings=2)
                     d._kind = "ekf"
                     process, sensor = eh.make_noises(ctx.rng, d)
